@@ -1010,32 +1010,37 @@ func (c *Conn) handleBdat(arg string) {
 
 		c.dataResult = make(chan error, 1)
 
+		// The goroutine may outlive an aborted transaction, so it must not
+		// look at the fields of the next one.
+		dataResult, bdatStatus := c.dataResult, c.bdatStatus
+		session, recipients := c.Session(), c.recipients
+
 		go func() {
 			defer func() {
 				if err := recover(); err != nil {
-					c.handlePanic(err, c.bdatStatus)
+					c.handlePanic(err, bdatStatus)
 
-					c.dataResult <- errPanic
+					dataResult <- errPanic
 					r.CloseWithError(errPanic)
 				}
 			}()
 
 			var err error
 			if !c.server.LMTP {
-				err = c.Session().Data(r)
+				err = session.Data(r)
 			} else {
-				lmtpSession, ok := c.Session().(LMTPSession)
+				lmtpSession, ok := session.(LMTPSession)
 				if !ok {
-					err = c.Session().Data(r)
-					for _, rcpt := range c.recipients {
-						c.bdatStatus.SetStatus(rcpt, err)
+					err = session.Data(r)
+					for _, rcpt := range recipients {
+						bdatStatus.SetStatus(rcpt, err)
 					}
 				} else {
-					err = lmtpSession.LMTPData(r, c.bdatStatus)
+					err = lmtpSession.LMTPData(r, bdatStatus)
 				}
 			}
 
-			c.dataResult <- err
+			dataResult <- err
 			r.CloseWithError(err)
 		}()
 	}
